@@ -364,7 +364,7 @@ fn gen_cases(tier: &str, rng: &mut Rng, out: &mut dyn FnMut(Case)) {
     }
 
     // ---- 3. field-mutated and random contents
-    let n_random = if thorough { 120_000 } else { 2_500 };
+    let n_random = if thorough { 120_000 } else { 8_000 };
     for _ in 0..n_random {
         let rmbx = *rng.pick(&rmbx_all);
         let kind = rng.below(7) as usize;
@@ -412,7 +412,7 @@ fn gen_cases(tier: &str, rng: &mut Rng, out: &mut dyn FnMut(Case)) {
 
     // ---- 4. segmented sequences (command 3 in the segment responses, the only shape ethercrab accepts,
     //          and command 0 as the standard says)
-    let n_seg = if thorough { 30_000 } else { 1_200 };
+    let n_seg = if thorough { 30_000 } else { 4_000 };
     for _ in 0..n_seg {
         let rmbx = *rng.pick(&[16u16, 17, 19, 20, 22, 23, 24, 32, 48, 64, 128, 1024]);
         let d = match rng.below(4) {
@@ -458,7 +458,7 @@ fn gen_cases(tier: &str, rng: &mut Rng, out: &mut dyn FnMut(Case)) {
     }
 
     // ---- 5. SDO-info fragment sequences
-    let n_info = if thorough { 30_000 } else { 1_200 };
+    let n_info = if thorough { 30_000 } else { 4_000 };
     for _ in 0..n_info {
         let rmbx = *rng.pick(&[12u16, 13, 14, 15, 16, 18, 20, 32, 64, 128, 1024]);
         let op = if rng.chance(1, 4) { Op::Quant } else { Op::List(rng.range(1, 5) as u8) };
